@@ -5,10 +5,11 @@ For a predicate text `p` and a row, three things can be observed on the implemen
 `ev`   — the accept/reject decision `NewExprCondition(p).Evaluate(row)`;
 `twin` — the decision for the parenthesised text `(p)`, which no shortcut recognises, i.e. the
          decision of the general expression engine for that predicate;
-`fast` — what the compiled shortcut answered, if it answered.
-The property: the decision is the general engine's (`ev = twin`), and a shortcut that answers
-answers the same (`fast ∈ {none, some twin}`). A predicate whose evaluation fails rejects the row:
-`decision` of an error is `false` (and `Evaluate` has no other way to fail: its result is a Bool).
+`fast` — what the compiled shortcut answered, if it answered;
+`failed` — whether running the compiled program on the row returned an evaluation error.
+The property: the decision is the general engine's (`ev = twin`), a shortcut that answers
+answers the same (`fast ∈ {none, some twin}`), and a predicate whose evaluation fails rejects the
+row (`failed → ev = false`; `Evaluate` has no other way to fail: its result is a Bool).
 The reference semantics of the general engine for the shapes of the quantifier is the table
 `Cond.generalEval` (`Model/CondGeneral.lean`). Core Lean only.
 -/
@@ -22,6 +23,7 @@ structure Obs where
   ev : Bool
   twin : Bool
   fast : Option Bool
+  failed : Bool
   deriving DecidableEq, Repr
 
 def decisionAgrees (o : Obs) : Bool := o.ev == o.twin
@@ -31,12 +33,15 @@ def shortcutAgrees (o : Obs) : Bool :=
   | none => true
   | some b => b == o.twin
 
-def holds (o : Obs) : Bool := decisionAgrees o && shortcutAgrees o
+def failureRejects (o : Obs) : Bool := !o.failed || !o.ev
+
+def holds (o : Obs) : Bool := decisionAgrees o && shortcutAgrees o && failureRejects o
 
 /-- name of the first violated clause -/
 def verdict (o : Obs) : String :=
   if !decisionAgrees o then "fail:decision-differs-from-general-engine"
   else if !shortcutAgrees o then "fail:shortcut-differs-from-general-engine"
+  else if !failureRejects o then "fail:evaluation-failure-accepts-row"
   else "ok"
 
 /-- what the general engine decides for a predicate: its outcome, an error rejecting the row -/
